@@ -263,3 +263,100 @@ def run(rep, tier):
     keyifs = [n for n in fj.walk() if n['k'] == 'IfStmt' and any(x['k'] == 'DeclRefExpr' and x['ref'].get('name') == 'JSMN_OBJECT' for x in sub(n['c'][0]))]
     keycalls = [x for n in keyifs for st in n['c'][1:] for x in unescapes(st)]
     rep.check(len(keycalls) == 1, 'R15.5', 'fromJSON|key unescaped once', fj.where(), 'the key path applies jsonUnescape %d time(s)' % len(keycalls))
+
+    # ---- R15.6 one sentinel slot allows one step of the cursor between two end tests
+    rep.rule('R15.6', 'the token cursor never runs past the sentinel: in the tree-building loop of Data::fromJSON no CFG path leads from one increment of the cursor to the next without an end test in between (t[cursor].end == 0 on the zeroed sentinel, or cursor against the parser\'s token count); the buffer has exactly one slot behind the parsed tokens')
+    g6 = cfgm.CFG(fj)
+    curs = {}
+    for n in fj.walk():
+        if n['k'] in ('UnaryOperator', 'CompoundAssignOperator') and n.get('op') in ('++', '+=') and n['id'] in g6.pos:
+            l = strip(n['c'][0])
+            if l is not None and l['k'] == 'DeclRefExpr' and 'lid' in l.get('ref', {}):
+                curs.setdefault(l['ref']['lid'], []).append(n)
+    # the cursor: the variable that subscripts the token array inside a loop and is incremented there
+    tok_lids = {}
+    for n in fj.walk():
+        if n['k'] == 'ArraySubscriptExpr' and 'jsmntok' in ((strip(n['c'][0]) or {}).get('t') or ''):
+            i_ = strip(n['c'][1])
+            if i_ is not None and i_['k'] == 'DeclRefExpr' and i_.get('ref', {}).get('lid') in curs:
+                tok_lids.setdefault(i_['ref']['lid'], []).append(n)
+    if not tok_lids:
+        raise AnalysisBroken('Data::fromJSON: token cursor not found')
+    cur = max(tok_lids, key=lambda k_: len(tok_lids[k_]))
+    incs = [n for n in curs[cur] if any(a_['k'] in ('DoStmt', 'WhileStmt', 'ForStmt') for a_ in fj.ancestors(n))]
+    tests = []
+    for bid, blk in g6.blocks.items():
+        c = blk.get('cond')
+        if c is None or c not in fj.nodes:
+            continue
+        cn = strip(fj.nodes[c])
+        mentions_cur = any(x['k'] == 'DeclRefExpr' and x.get('ref', {}).get('lid') == cur for x in sub(cn))
+        is_end = any(x['k'] == 'MemberExpr' and x['ref'].get('name') == 'end' for x in sub(cn)) and cn['k'] == 'BinaryOperator' and cn.get('op') in ('==', '!=') and tab.const_of(cn['c'][1]) == 0
+        is_bound = cn['k'] == 'BinaryOperator' and cn.get('op') in ('<', '<=', '>', '>=') and any(x['k'] == 'MemberExpr' and x['ref'].get('name') in ('toknext', 'toksuper') or (
+            x['k'] == 'DeclRefExpr' and x.get('ref', {}).get('name') in ('rv', 'nrTokens')) for x in sub(cn))
+        if mentions_cur and (is_end or is_bound):
+            tests += [x['id'] for x in sub(cn) if x['id'] in g6.pos]
+    rep.minimum('R15.6', len(incs), 2, 'increments of the token cursor in the tree-building loop')
+    if not tests:
+        raise AnalysisBroken('Data::fromJSON: no end test of the token cursor found')
+    for i_ in incs:
+        w = g6.can_reach(g6.pos[i_['id']], [x['id'] for x in incs], avoid=tests)
+        rep.check(w is None, 'R15.6', 'fromJSON|increment at line %d' % i_['loc'][1], locstr(i_), 'after this step of the cursor the next step %s' % (
+            'is always preceded by an end test' if w is None else 'can follow WITHOUT an end test: two steps pass the single sentinel slot, the walker then reads t[cursor] behind the buffer (text ending in a key, {"a"}, with the token budget used up exactly) and may never terminate'))
+
+    # ---- R15.7 Event::fromData does not take the first entry of a map that may be empty
+    rep.rule('R15.7', 'clean failure of the text -> Data -> Event path: in Event::fromData every dereference of begin() of a container taken from the Data argument is under a non-emptiness test of that container (a "params" element that is not a one-entry map is skipped or rejected, not dereferenced)')
+    efd = fb.fn('uscxml::Event::fromData', required=False)
+    if efd is None:
+        fb7 = facts.FactBase(['src/uscxml/messages/Event.cpp'])
+        efd = fb7.fn('uscxml::Event::fromData')
+    else:
+        fb7 = fb
+    from .C08 import edge_dominates
+    g7 = cfgm.CFG(efd)
+    nder = 0
+    for n in efd.walk():
+        if n['k'] != 'CXXMemberCallExpr' or n.get('callee', {}).get('q', '').split('::')[-1] not in ('begin', 'cbegin', 'front', 'back') or not n['c'][0].get('c'):
+            continue
+        par = efd.parent(n)
+        while par is not None and par['k'] in facts.TRANSPARENT + ('MaterializeTemporaryExpr', 'CXXBindTemporaryExpr'):
+            par = efd.parent(par)
+        deref = n['callee']['q'].split('::')[-1] in ('front', 'back') or (par is not None and (par['k'] == 'CXXOperatorCallExpr' and par.get('op') in ('->', '*') or par['k'] == 'UnaryOperator' and par.get('op') == '*'))
+        if not deref:
+            continue
+        nder += 1
+        base = ' '.join(fb7.text(n['c'][0]['c'][0]).split())
+        ok = False
+        if n['id'] in g7.pos or (par is not None and par['id'] in g7.pos):
+            tb = g7.pos.get(n['id'], g7.pos.get(par['id']))[0]
+            for bid, blk in g7.blocks.items():
+                c = blk.get('cond')
+                if c is None or c not in efd.nodes or bid == tb:
+                    continue
+                cn = efd.nodes[c]
+                tests_base = any(x['k'] == 'CXXMemberCallExpr' and x.get('callee', {}).get('q', '').split('::')[-1] in ('empty', 'size') and x['c'][0].get('c') and
+                                 ' '.join(fb7.text(x['c'][0]['c'][0]).split()) == base for x in sub(cn))
+                if tests_base and (edge_dominates(g7, bid, True, tb) or edge_dominates(g7, bid, False, tb)):
+                    ok = True
+        rep.check(ok, 'R15.7', 'Event::fromData|%s.%s()' % (base, n['callee']['q'].split('::')[-1]), locstr(n), 'the first entry of `%s` is taken %s' % (base,
+                  'under a non-emptiness test' if ok else 'WITHOUT a non-emptiness test: {"name":"foo","params":[1]} dereferences begin() of an empty map (std::bad_alloc / SIGABRT in the deserialize path of the event queues)'))
+    rep.minimum('R15.7', nder, 1, 'first-entry dereferences in Event::fromData')
+
+    # ---- R15.8 / R15.9 the writer's spellings all have a reader
+    rep.rule('R15.8', 'no raw control character in emitted JSON: jsonEscape has an arm for the bytes below 0x20 that the named escapes do not cover (a range test), and jsonUnescape an arm for the \\u form it produces')
+    esc = fb.fn('uscxml::Data::jsonEscape')
+    unesc = fb.fn('uscxml::Data::jsonUnescape')
+    rng = [n for n in esc.walk() if n['k'] == 'BinaryOperator' and n.get('op') in ('<', '<=') and tab.const_of(n['c'][1]) in (0x20, 0x1f, 32, 31)]
+    uarm = any(a_ for sw_ in unesc.walk() if sw_['k'] == 'SwitchStmt' for a_ in tab.switch_arms(sw_) if ord('u') in [v for v in a_['values'] if v is not None])
+    rep.check(bool(rng), 'R15.8', 'jsonEscape|control characters', esc.where(), 'bytes below 0x20 without a named escape are %s' % ('escaped (range arm)' if rng else 'copied literally: a NUL byte ends the text for the C-string scanner, fromJSON(toJSON(x)) throws'))
+    rep.check(uarm, 'R15.8', 'jsonUnescape|\\u arm', unesc.where(), 'the \\uXXXX form is %s' % ('decoded' if uarm else 'NOT decoded: the backslash is dropped and "u0041" remains'))
+    rep.rule('R15.9', 'the empty value and the bare atom have a reader: what toJSON writes for an empty Data (null) is mapped back to an empty Data by fromJSON, and a text that toJSON writes for a top-level atom is accepted by fromJSON')
+    tj = fb.fn('uscxml::Data::toJSON', required=False) or next((f_ for f_ in fb.funcs.values() if f_.q.endswith('Data::toJSON')), None)
+    writes_null = tj is not None and any(x['k'] == 'StringLiteral' and x.get('str') == 'null' for x in tj.walk())
+    reads_null = any(x['k'] == 'StringLiteral' and x.get('str') == 'null' for x in fj.walk())
+    rep.check(reads_null or not writes_null, 'R15.9', 'fromJSON|null', fj.where(), 'toJSON writes an empty Data as null: %s; fromJSON maps the word null back to an empty Data: %s%s' % (
+        writes_null, reads_null, '' if reads_null or not writes_null else ' -- {"list": <empty>} comes back with list.atom == "null" and compares unequal; an Event without payload comes back with data "null"'))
+    early = [n for n in fj.walk() if n['k'] == 'IfStmt' and (any(x['k'] == 'CharacterLiteral' and x.get('int') in (ord('{'), ord('[')) for x in sub(n['c'][0])) or any(
+        x['k'] == 'StringLiteral' and set(x.get('str') or '') == set('{[') for x in sub(n['c'][0]))) and any(x['k'] == 'ReturnStmt' for x in sub(n['c'][1]))]
+    rep.check(not early, 'R15.9', 'fromJSON|top-level atom', locstr(early[0]) if early else fj.where(), 'a text that does not start with { or [ %s' % (
+        'is parsed' if not early else 'is answered with an empty Data: Data("top") and Data(42) written by toJSON ("top", 42) come back empty'))
